@@ -261,7 +261,7 @@ def run(ctx):
         elif c.get('op', 'none') == 'none':
             repo = [(c['origin'], c['text'])]
     else:
-        for i in range(int(os.environ.get('C03_NGEN', '0')) or (30 if quick else 400)):
+        for i in range(int(os.environ.get('C03_NGEN', '0')) or (16 if quick else 300)):
             g = F.Gen(rng, FEATURES)
             prog = g.program(nstmts=rng.randint(4, 8), depth=2)
             gen.append((prog, g.inputs(prog, 2)))
@@ -272,6 +272,8 @@ def run(ctx):
                 skipped_cpp += 1
                 continue
             repo.append(('repo:' + os.path.relpath(p, core.REPO), text))
+        if os.environ.get('C03_REPO_MAX'):      # development: a seeded sample of the repository sources
+            repo = rng.sample(repo, min(len(repo), int(os.environ['C03_REPO_MAX'])))
     cases, meta = [], []
     rejected = []
     t0 = time.time()
@@ -305,7 +307,7 @@ def run(ctx):
                 continue
             if not units:
                 continue
-            nedit = (3 if origin.startswith('generated') else 2) if quick else 9
+            nedit = (3 if origin.startswith('generated') else 1) if quick else 9
             for _ in range(nedit):
                 edit_specs.append((origin, text, rng.choice(units), rng.randrange(1000), rng.choice(['replace', 'remove', 'subst'])))
     edit_raised = 0
@@ -413,3 +415,39 @@ def run(ctx):
 def T_kind(line):
     from .C02 import kind_of_line
     return kind_of_line(line) if line not in ('<end>',) else 'end'
+
+
+def selftest(ctx):
+    """Binding demonstration: corrupt single recorded fields of accepted cases; TLC must reject with the matching clause."""
+    src = "subroutine s(a, b)\ninteger, intent(inout) :: a, b\n   a = 1\n   b   = a +  2\n   a = b\nend subroutine s\n"
+    cs, _ms = unmodified_cases(src, 'selftest')
+    good_u = cs[1]
+    good_e, _m = edited_case(src, 's', 1, 'replace', 'selftest')
+    b = []
+    c = copy.deepcopy(good_u); c['out'][3] = c['out'][3].replace('   b   =', '   b =', 1); b.append(('output line normalised (unmodified unit)', c, 'unmodified'))
+    c = copy.deepcopy(good_u); del c['out'][2]; b.append(('output line missing (unmodified unit)', c, 'unmodified'))
+    c = copy.deepcopy(good_e)
+    k = next(i for i, n in enumerate(c['nodes']) if n['kind'] == 'Section' and n['st'] == 'INVALID_CHILDREN' and any(
+        m['par'] == i + 1 and m['st'] == 'NONE' for m in c['nodes']))
+    c['nodes'][k]['st'] = 'VALID'
+    c['nodes'][k]['oid'] = next(i + 1 for i, n in enumerate(c['onodes']) if n['kind'] == 'Section' and n['l0'] == c['nodes'][k]['l0'] and n['l1'] == c['nodes'][k]['l1'])
+    b.append(('parent of the replaced node recorded as VALID', c, 'valid-sound'))
+    c = copy.deepcopy(good_e)
+    j = next(i for i, l in enumerate(c['out']) if l == '   a = 1')
+    c['out'][j] = '   A = 1'
+    b.append(('a VALID statement printed re-formatted', c, 'valid-emitted'))
+    c = copy.deepcopy(good_e)
+    i1 = next(i for i, l in enumerate(c['out']) if l == '   a = 1'); i2 = next(i for i, l in enumerate(c['out']) if l == '   a = b')
+    c['out'][i1], c['out'][i2] = c['out'][i2], c['out'][i1]
+    b.append(('two VALID statements printed in the wrong order', c, 'valid-emitted'))
+    v = ctx.validate('Trace_SourceStatus', 'Trace_SourceStatus', [good_u, good_e] + [x[1] for x in b], shards=1)
+    if not v[0][0] or not v[1][0]:
+        raise MachineryError(f'selftest: an uncorrupted case is rejected: {v[0]} {v[1]}')
+    missed = []
+    for i, (name, _c, want) in enumerate(b, 2):
+        hit = (not v[i][0]) and v[i][1] == want
+        print(f"  {'rejected' if hit else 'MISSED (!)'}: {name}: {v[i][1]}")
+        if not hit:
+            missed.append(name)
+    print(f'SELFTEST-FAILED C03: {missed}' if missed else f'SELFTEST-OK C03: {len(b)} corruptions rejected')
+    return 1 if missed else 0
